@@ -1,6 +1,9 @@
 import GqlProofs.ValSpec.Spreads
 import GqlProofs.ValSpec.LeafFrag
 import GqlProofs.ValSpec.DefDirs
+import GqlProofs.ValSpec.LinkWitness
+import GqlProofs.ValSpec.DumpLine
+import GqlProofs.Props.C08
 import GqlModel.Validate.Spec.Links
 /-
   C09 — validated documents are completely and correctly linked.
@@ -32,17 +35,47 @@ import GqlModel.Validate.Spec.Links
                                   parent = definition of the type condition) — this is what links
                                   the variables used there to the operation's variable definitions
 
-  NOT finished (kept as the goal):
+    C09_value_links_correct       (a) the value events of a run are exactly the value nodes the
+                                  specification lists, with the expected type and definition it
+                                  demands (list items, input-object fields, list-coerced single
+                                  values, custom-scalar contents excepted, variable defaults)
+    C09_variable_use_links_correct (b) `Value.VariableDefinition`: own event, last write wins (which
+                                  operation wins when a fragment is shared — the C15 finding), never
+                                  written, every use in the scope of an operation is walked on its
+                                  behalf (fragments reached transitively included);
+    C09_variable_use_links_agreeing   one operation / identically declaring operations
+    C09_variable_definition_links_correct (c)
+    C09_inline_fragment_link_is_parent, C09_inline_fragment_link_counterexample (d) the known finding
+    C09_links_correct             (e) the capstone: `Spec.expectedLinks` is the rendering of the
+                                  structured demands `docDemands`; for a valid document on a closed
+                                  schema every demand is met by an event, every variable use shows an
+                                  admissible candidate, and every demanded link is present
+    C09_expected_links_met        (e) in the terms of `linkscheck`: every expected link has an event
+                                  whose dump line (`Event.linkFields`, printed by `Event.linkLine`)
+                                  carries its start, kind and every demanded field
+    C09_untyped_values_only_in_custom_scalars   under ValuesOfCorrectType the only values without a
+                                  demanded expected type are the contents of custom-scalar literals
+    C09_default_rule_reports_nothing, C09_link_rules_of_valid   validity → the rule predicates used
+  Proof files: `GqlProofs/ValSpec/{ValueLinks,Built,Reach,VarLinks,ValueDoc,VarUses,Demands,Capstone,
+  ReachSpec,VarCands,Present,CustomScalar,DumpLine,LinkWitness}.lean`.
+
+  What is still NOT proved (kept as the goal):
     C09_links_complete : Closed s → validate defaultRules s d = .ok [] →
         Spec.linksComplete s d (linkDump evs) = true
-  One part of it is FALSE for the current tree and is reported by the check on the real walker
-  (known finding): an inline fragment carries the ENCLOSING type, not its type condition's
-  definition (`link-wrong:inlineFragment:obj`).  (A variable used in the directives of a fragment
-  definition used to be never linked — `link-missing:value:var`; the walker now walks those
-  directives on the first visit of the fragment in every operation, `walkSelection` `.spread`.)
-  For field / value links the missing lemma is `walk_parent_type` (see C08.lean).
+  It is FALSE as it stands for the current tree — an inline fragment carries the ENCLOSING type, not
+  its type condition's definition (`link-wrong:inlineFragment:obj`, reported by the check on the real
+  walker: known finding).  Apart from that finding, what separates `C09_links_correct` from it is
+  (1) the string layer: `linkDump` prints one line per node and `linkscheck` parses it again (the
+  theorem is about the events and the structured demands on both sides of that printing);
+  (2) node identity: the dump keeps the LAST event of every (start offset, kind) — the theorem gives
+  an event about the very node; that all events about one node carry the same context-determined
+  link needs "distinct nodes start at distinct offsets", which only the variable-use theorems state
+  (`VarStartsDistinct`, `FragPosDistinct`); for `Value.VariableDefinition`, the one link that is not
+  context-determined, the final state is described exactly by `C09_variable_use_links_correct`;
+  (3) `Spec.wellParented`, KnownRootType and KnownTypeNames are hypotheses, not yet consequences of
+  `validate … = .ok []` (no C08 equivalence for these rules yet).
 -/
-open Gql Gql.Validate
+open Gql Gql.Validate Gql.Validate.Rules
 
 /-- the link carried by an event is the one `Spec.expectedLinks` demands (context-free link kinds) -/
 def LinkSound (s : Schema) (d : QueryDoc) : Payload → Prop
@@ -133,3 +166,432 @@ example :
 
 /-- the walk always succeeds (C02), so the statements above are not vacuous -/
 example (s : Schema) (d : QueryDoc) : ∃ evs, walkDoc s.view d = some evs := walkDoc_isSome s.view d
+
+/-! ## Values, variable uses, variable definitions, inline fragments -/
+
+/-- (a) VALUES.  For a well-parented document (every document that validates is one) the value
+    events of a run are exactly the value nodes the specification lists (`SpecValOcc`: every node of
+    every argument value of `Spec.argSites` and of every variable default value, with the context
+    `Spec.valueLinks` computes — `valueLinks_eq`, `argLinks_eq`), and wherever the specification
+    demands `ExpectedType` / `Definition` (`o.typed`: argument values, and values nested in list /
+    input-object literals of a declared type; not the contents of custom-scalar literals) the event
+    carries exactly the demanded pair:
+      * items of a list literal: the element type and the SAME definition as the list;
+      * fields of an input-object literal: the declared type of the field and its definition;
+      * a single value where a list type is expected keeps the list type (and the definition of
+        the innermost named type) — the walker does not unwrap, neither does the specification;
+      * the default value of a variable: the variable's type and its definition (more than the
+        specification's `opLinks` asks of the top-level default value). -/
+theorem C09_value_links_correct (s : Schema) (d : QueryDoc) (evs : List Event) (hw : walkDoc s.view d = some evs)
+    (hwp : Spec.wellParented s d = true) (hk : ∀ op ∈ d.ops, op.op ∈ parserOpKinds) :
+    (∀ e ∈ evs, ∀ v exp dfn, e.p = .value v exp dfn →
+      ∃ o, SpecValOcc s d o ∧ o.v = v ∧ (o.typed = true → exp = o.exp ∧ dfn = o.dfn)) ∧
+    (∀ o, SpecValOcc s d o →
+      ∃ e ∈ evs, ∃ exp dfn, e.p = .value o.v exp dfn ∧ (o.typed = true → exp = o.exp ∧ dfn = o.dfn)) := by
+  constructor
+  · intro e he v exp dfn hp
+    obtain ⟨_, o, ho, _, exp', dfn', hp', hag⟩ := walkDoc_values_soundW s d evs hw e he (by rw [hp]; trivial)
+    rw [hp] at hp'
+    injection hp' with h1 h2 h3
+    subst h2 h3
+    exact ⟨o, (wValOcc_iff s d hwp hk o).1 ho, h1.symm, fun ht => hag.demanded ht⟩
+  · intro o ho
+    obtain ⟨e, he, _, exp', dfn', hp', hag⟩ := walkDoc_values_completeW s d evs hw o ((wValOcc_iff s d hwp hk o).2 ho)
+    exact ⟨e, he, exp', dfn', hp', fun ht => hag.demanded ht⟩
+
+/-- (b) VARIABLE USES.  `Value.VariableDefinition` of a variable use is written whenever the use is
+    walked while `CurrentOperation = op`, with `op`'s definition of that name (`nil` if it has none),
+    and it is only written then.  So
+    (own)   at its own event a use walked on behalf of `op` (an operation of the document) shows
+            `op`'s definition;
+    (last)  every later event shows, for that node (key: start offset), the definition written by
+            the LAST such walk — in particular the stand-alone walk of a fragment definition
+            (`CurrentOperation = nil`) shows what the last operation that walked the fragment
+            wrote: with several operations spreading one fragment that is the last one in document
+            order, whatever the others declare (the recorded C15 finding, `docS` below);
+    (never) a use that no operation has walked shows no definition (a fragment no operation reaches);
+    (scope) every variable use in the scope of an operation — its own selection set and directives,
+            the directives of its variable definitions, and the directives and selection sets of
+            all fragments it reaches transitively through spreads (`OpArgCall`) — is walked on
+            behalf of that operation (and then shows its definition, by (own)). -/
+theorem C09_variable_use_links_correct (s : Schema) (d : QueryDoc) (evs : List Event) (hw : walkDoc s.view d = some evs) :
+    (∀ e ∈ evs, ∀ op raw ch p exp dfn, e.cur = some op → e.p = .value (.mk .variable raw ch p) exp dfn →
+      op ∈ d.ops ∧ e.links.varDef p.start = Spec.varDefByName op raw) ∧
+    (∀ pre e mid e' post, evs = pre ++ e :: (mid ++ e' :: post) →
+      ∀ op raw ch p exp dfn, e.cur = some op → e.p = .value (.mk .variable raw ch p) exp dfn →
+        NoWrite p.start (mid ++ [e']) → e'.links.varDef p.start = Spec.varDefByName op raw) ∧
+    (∀ pre e' post, evs = pre ++ e' :: post → ∀ k, NoWrite k (pre ++ [e']) → e'.links.varDef k = none) ∧
+    (∀ op ∈ d.ops, ∀ defs args, OpArgCall s.view d op defs args → ∀ o ∈ argOccs s defs args,
+      ∃ e ∈ evs, e.cur = some op ∧ ∃ exp dfn, e.p = .value o.v exp dfn) := by
+  obtain ⟨l, ht⟩ := walkDoc_trace s.view d evs hw
+  refine ⟨?_, ?_, ?_, ?_⟩
+  · intro e he op raw ch p exp dfn hc hp
+    refine ⟨(walkDoc_values_soundW s d evs hw e he (by rw [hp]; trivial)).1 op hc, ?_⟩
+    obtain ⟨pre, post, hsplit⟩ := List.append_of_mem he
+    rw [hsplit] at ht
+    exact trace_own pre e post ht op raw ch p exp dfn hc hp
+  · intro pre e mid e' post hsplit op raw ch p exp dfn hc hp hn
+    rw [hsplit] at ht
+    exact trace_last pre e mid e' post ht op raw ch p exp dfn hc hp hn
+  · intro pre e' post hsplit k hn
+    rw [hsplit] at ht
+    exact trace_none pre e' post ht k hn
+  · intro op hop defs args hc o ho
+    obtain ⟨e, he, hcur, exp, dfn, hp, _⟩ := walkDoc_scope_values s d evs hw op hop defs args hc o ho
+    exact ⟨e, he, hcur, exp, dfn, hp⟩
+
+/-- (b), the case in which the link is the specified one whatever the order of the operations: if
+    all operations declare every variable identically (in particular: a document with one
+    operation) and distinct variable uses start at distinct offsets (every parse), then every event
+    about a use of `$raw` shows the definition of `raw` of ANY operation of the document — or
+    nothing, and that only while no operation has walked the use. -/
+theorem C09_variable_use_links_agreeing (s : Schema) (d : QueryDoc) (evs : List Event) (hw : walkDoc s.view d = some evs)
+    (hagree : ∀ op ∈ d.ops, ∀ op' ∈ d.ops, ∀ raw, Spec.varDefByName op raw = Spec.varDefByName op' raw)
+    (huniq : VarStartsDistinct evs) :
+    ∀ pre e' post, evs = pre ++ e' :: post → ∀ raw ch p exp dfn, e'.p = .value (.mk .variable raw ch p) exp dfn →
+      (e'.links.varDef p.start = none ∧ NoWrite p.start (pre ++ [e'])) ∨
+      ∀ op ∈ d.ops, e'.links.varDef p.start = Spec.varDefByName op raw :=
+  walkDoc_varlinks_agreeing s d evs hw hagree huniq
+
+/-- (c) VARIABLE DEFINITIONS: every variable-definition event is about a variable definition of an
+    operation of the document and carries the definition of its named type; every variable
+    definition has such an event. -/
+theorem C09_variable_definition_links_correct (s : Schema) (d : QueryDoc) (evs : List Event)
+    (hw : walkDoc s.view d = some evs) :
+    (∀ e ∈ evs, ∀ v dfn, e.p = .variable v dfn → (∃ op ∈ d.ops, v ∈ op.vars) ∧ dfn = s.type? v.type.name) ∧
+    (∀ op ∈ d.ops, ∀ v ∈ op.vars, ∃ e ∈ evs, e.p = .variable v (s.type? v.type.name)) := by
+  constructor
+  · intro e he v dfn hp
+    obtain ⟨l, hb⟩ := walkDoc_built s.view d evs hw
+    obtain ⟨op, hop, hv, _, hd⟩ := hb.varDef_sound e he v dfn hp
+    exact ⟨⟨op, hop, hv⟩, hd⟩
+  · intro op hop v hv
+    obtain ⟨e, he, _, hp⟩ := ((walkDoc_reach s.view d evs hw).1 op hop).varDefs v hv
+    exact ⟨e, he, hp⟩
+
+/-- (d) INLINE FRAGMENTS: `InlineFragment.ObjectDefinition` is the ENCLOSING type (the declarative
+    parent type of the node, `t.parent`) — for every inline-fragment event and every inline fragment
+    of the document — not the definition of the type condition (`Spec.inlineType s t.parent tc`),
+    which is what the property text and `Spec.selLinks` ask for. -/
+theorem C09_inline_fragment_link_is_parent (s : Schema) (d : QueryDoc) (evs : List Event)
+    (hw : walkDoc s.view d = some evs) (hwp : Spec.wellParented s d = true) :
+    (∀ e ∈ evs, ∀ f par, e.p = .inlineFragment f par →
+      (⟨par, .inline f.typeCond f.dirs f.sel f.pos⟩ : Spec.TSel) ∈ Spec.docSels s d) ∧
+    (∀ t ∈ Spec.docSels s d, ∀ tc dirs sub p, t.sel = .inline tc dirs sub p →
+      ∃ e ∈ evs, e.p = .inlineFragment ⟨tc, dirs, sub, p⟩ t.parent) := by
+  constructor
+  · intro e he f par hp
+    have := walkDoc_w s.view d evs hw e he
+    rw [hp] at this
+    exact (inDocW_iff s d hwp _ _).1 this
+  · intro t ht tc dirs sub p hs
+    have ht' : (⟨t.parent, .inline tc dirs sub p⟩ : Spec.TSel) ∈ Spec.docSels s d := by
+      rw [← hs]
+      exact ht
+    exact walkDoc_hasW s.view d evs hw _ _ ((inDocW_iff s d hwp t.parent _).2 ht')
+
+open Gql.Validate.LinkWitness in
+/-- (d), the counterexample to the property's wording, kernel-checked: the document
+    `{ ab { ... on A { o { id } } } }` passes validation against
+    `type Query { ab: AB } type T { id: ID } type A { o: T } union AB = A`; its one inline fragment
+    (offset 7) is linked to `AB`, the enclosing type; the specification demands the definition of
+    the type condition, `A` (`linkscheck` reports `WRONG,inlineFragment,obj,7,A,AB`, and so does
+    `vcheck -prop C09` on the real walker: the recorded known finding). -/
+theorem C09_inline_fragment_link_counterexample :
+    validate defaultRules schemaI docI = .ok [] ∧
+    (walkDoc schemaI.view docI).map (fun evs => evs.filterMap fun e =>
+      match e.p with
+      | .inlineFragment f par => some (f.pos.start, par.map (·.name))
+      | _ => none) = some [(7, some (str "AB"))] ∧
+    (Spec.inlineType schemaI (schemaI.type? (str "AB")) (str "A")).map (·.name) = some (str "A") ∧
+    str "A" ≠ str "AB" := by
+  refine ⟨by decide +kernel, by decide +kernel, by decide +kernel, by decide⟩
+
+/-! ## The capstone -/
+
+/-- a rule of the default rule set reports nothing on a document that validates (C18) -/
+theorem C09_default_rule_reports_nothing (s : Schema) (d : QueryDoc) (h : validate defaultRules s d = .ok [])
+    (r : Rule) (hmem : r ∈ defaultRules) : validate [r] s d = .ok [] := by
+  have hd : (defaultRules.map (·.name)).Nodup := by decide
+  unfold validate at *
+  obtain ⟨evs, hw, hrun⟩ := validateV_ok_iff.1 h
+  apply validateV_ok_iff.2
+  refine ⟨evs, hw, ?_⟩
+  exact runAll_filter hrun (by rw [rnames_start]; exact hd) (Rule.start r) (List.mem_map.2 ⟨_, hmem, rfl⟩)
+
+/-- what validity says about links: FieldsOnCorrectType, KnownFragmentNames, KnownDirectives and
+    KnownArgumentNames through their C08 equivalences; KnownRootType and KnownTypeNames (no
+    equivalence yet) as the hypotheses `hKnownRootType`, `hKnownTypeNames` -/
+theorem C09_link_rules_of_valid (s : Schema) (d : QueryDoc) (hvalid : validate defaultRules s d = .ok [])
+    (hwp : Spec.wellParented s d = true) (hk : ∀ op ∈ d.ops, op.op ∈ parserOpKinds)
+    (hKnownRootType : Spec.knownRootType s d = true)
+    (hKnownTypeNames : Spec.variableTypesExist s d = true ∧ Spec.fragmentSpreadTypeExistence s d = true) :
+    LinkRules s d :=
+  { knownRootType := hKnownRootType
+    fieldSelections := (C08_FieldsOnCorrectType s d hwp).1
+      (C09_default_rule_reports_nothing s d hvalid _ (List.mem_filterMap.2 ⟨"FieldsOnCorrectType", by decide, rfl⟩))
+    typeConditions := hKnownTypeNames.2
+    variableTypes := hKnownTypeNames.1
+    spreads := (C08_KnownFragmentNames s d).1
+      (C09_default_rule_reports_nothing s d hvalid _ (List.mem_filterMap.2 ⟨"KnownFragmentNames", by decide, rfl⟩))
+    directives := ((C08_KnownDirectives s d hk).1
+      (C09_default_rule_reports_nothing s d hvalid _ (List.mem_filterMap.2 ⟨"KnownDirectives", by decide, rfl⟩))).1
+    argumentNames := (C08_KnownArgumentNames s d hwp hk).1
+      (C09_default_rule_reports_nothing s d hvalid _ (List.mem_filterMap.2 ⟨"KnownArgumentNames", by decide, rfl⟩)) }
+
+/-- (e) THE CAPSTONE over all node kinds, for documents that pass validation (`errors = []`) against
+    a closed schema.
+
+    `Spec.expectedLinks s d` — the demanded links the `linkscheck` op compares a link dump with — is
+    the rendering (`Demand.render`) of the structured demands `docDemands s d`: one demand per
+    field, fragment spread, inline fragment, directive, variable definition, fragment definition
+    and value node of the document (nodes of fragment definitions included, in the context of
+    their definition), each with the node itself and its declarative context.  For every demand
+      (met)     the run has an event about that node which carries exactly the demanded link:
+                field → parent type and the field's definition on it; spread → fragment definition;
+                directive → definition and location; variable definition / fragment definition →
+                definition of the type / type condition; value → expected type and definition
+                wherever demanded.  EXCEPTION (recorded known finding): an inline fragment carries
+                the enclosing type, not the definition of its type condition
+                (`C09_inline_fragment_link_is_parent`, `C09_inline_fragment_link_counterexample`);
+      (var)     a variable use has an event that shows a variable definition among the admissible
+                candidates (the operation's own definition; for a use inside a fragment definition
+                a definition of an operation in whose scope the fragment lies), unless there is no
+                candidate at all (then `linkscheck` does not judge it).  WHICH candidate the document
+                keeps after the run is `C09_variable_use_links_correct`: the one of the operation
+                that walked the use last;
+      (present) the demanded link exists: validity excludes unknown fields, fragments, directives,
+                arguments (C08 equivalences of FieldsOnCorrectType, KnownFragmentNames,
+                KnownDirectives, KnownArgumentNames), unknown root types and type names
+                (hypotheses named after the rules KnownRootType and KnownTypeNames, which have no
+                equivalence theorem yet), and the closed schema resolves every field, argument and
+                input-field type.
+    Hypotheses besides validity: `hwp` — every selection is written where the type in scope is
+    composite (every document that validates is such; it is what ScalarLeafs, FragmentsOnComposite-
+    Types and KnownTypeNames enforce together); `hk` — operation kinds the parser produces; `hpos` —
+    fragment definitions have distinct positions (every parse); `hString` — the schema has the
+    built-in `String` (the type of `__typename`; every loaded schema).
+    That the contents of a list / object literal are untyped ONLY inside a custom-scalar literal is
+    `C09_untyped_values_only_in_custom_scalars` (hypothesis ValuesOfCorrectType); the same statement
+    in the terms of `linkscheck` (dump lines) is `C09_expected_links_met`. -/
+theorem C09_links_correct (s : Schema) (d : QueryDoc) (evs : List Event) (hw : walkDoc s.view d = some evs)
+    (hvalid : validate defaultRules s d = .ok []) (hs : Gql.Spec.Closed s)
+    (hString : (s.type? (str "String")).isSome) (hwp : Spec.wellParented s d = true)
+    (hk : ∀ op ∈ d.ops, op.op ∈ parserOpKinds) (hpos : FragPosDistinct d)
+    (hKnownRootType : Spec.knownRootType s d = true)
+    (hKnownTypeNames : Spec.variableTypesExist s d = true ∧ Spec.fragmentSpreadTypeExistence s d = true) :
+    Spec.expectedLinks s d = (docDemands s d).map (Demand.render s d) ∧
+    (∀ dm ∈ docDemands s d, dm.Met s d evs) ∧
+    (∀ dm ∈ docDemands s d, ∀ cands o raw ch p, dm = .value cands o → o.v = .mk .variable raw ch p →
+      cands raw = [] ∨
+      ∃ e ∈ evs, (∃ exp dfn, e.p = .value o.v exp dfn ∧ (o.typed = true → exp = o.exp ∧ dfn = o.dfn)) ∧
+        varText (e.links.varDef p.start) ∈ cands raw) ∧
+    (∀ dm ∈ docDemands s d, dm.Present s d) :=
+  ⟨expectedLinks_eq s d, docDemands_met s d evs hw hwp hk, docDemands_var_met s d evs hw hwp hpos,
+   docDemands_present s d hs hString (C09_link_rules_of_valid s d hvalid hwp hk hKnownRootType hKnownTypeNames)⟩
+
+/-- (e) in the terms of `linkscheck`: for every expected link `x` of `Spec.expectedLinks s d` other
+    than an inline fragment's (the known finding) the run has an event whose dump line — as data,
+    `Event.linkFields`; `Event.linkLine`, which `linkDump` prints, is its formatting (`linkLine_eq`) —
+    has the start offset and kind of `x` and contains every demanded field with exactly the
+    demanded text; and if `x` is a variable use with at least one admissible candidate, such an
+    event shows one of the candidates as `var=`.  (What `linkscheck` adds to this is parsing the
+    printed lines back and choosing the LAST line of every node, see the header.) -/
+theorem C09_expected_links_met (s : Schema) (d : QueryDoc) (evs : List Event) (hw : walkDoc s.view d = some evs)
+    (hwp : Spec.wellParented s d = true) (hk : ∀ op ∈ d.ops, op.op ∈ parserOpKinds) (hpos : FragPosDistinct d) :
+    ∀ x ∈ Spec.expectedLinks s d, x.kind ≠ "I" →
+      (∃ e ∈ evs, ∃ fs, e.linkFields = some (x.start, x.kind, fs) ∧
+        e.linkLine = some (x.start, fmtLine x.kind fs) ∧ ∀ kv ∈ x.fields, kv ∈ fs) ∧
+      (∀ cs, x.varCands = some cs → cs ≠ [] →
+        ∃ e ∈ evs, ∃ fs, e.linkFields = some (x.start, x.kind, fs) ∧ (∀ kv ∈ x.fields, kv ∈ fs) ∧
+          ∃ got, ("var", got) ∈ fs ∧ got ∈ cs) := by
+  intro x hx hkind
+  rw [expectedLinks_eq, List.mem_map] at hx
+  obtain ⟨dm, hdm, rfl⟩ := hx
+  have hni : ∀ f parent, dm ≠ .inline f parent := by
+    intro f parent heq
+    subst heq
+    exact hkind rfl
+  constructor
+  · obtain ⟨e, he, fs, hf, hall⟩ := met_line s d evs dm (docDemands_met s d evs hw hwp hk dm hdm) hni
+    exact ⟨e, he, fs, hf, by rw [linkLine_eq, hf]; rfl, hall⟩
+  · intro cs hcs hne
+    cases dm with
+    | value cands o =>
+      cases hv : o.v with
+      | mk k raw ch p =>
+        simp only [Demand.render, ValOcc.toExpLink, hv, Value.kind, Value.raw] at hcs
+        split at hcs
+        · rename_i hk'
+          injection hcs with hcs
+          have hkv : k = .variable := by simpa using hk'
+          subst hkv
+          rcases docDemands_var_met s d evs hw hwp hpos _ hdm cands o raw ch p rfl hv with hnil | ⟨e, he, ⟨exp, dfn, hp, hag⟩, hmem⟩
+          · rw [hnil] at hcs
+            exact absurd hcs.symm hne
+          · refine ⟨e, he, [("def", optDefName dfn), ("exp", typeText exp), ("var", varText (e.links.varDef p.start))], ?_, ?_, ?_⟩
+            · unfold Event.linkFields
+              rw [hp, hv]
+              simp only [Demand.render, ValOcc.toExpLink, hv, Value.pos]
+            · intro kv hkv
+              simp only [Demand.render, ValOcc.toExpLink] at hkv
+              cases ht : o.typed with
+              | false => rw [ht] at hkv; simp at hkv
+              | true =>
+                rw [ht] at hkv
+                obtain ⟨h1, h2⟩ := hag ht
+                subst h1 h2
+                simp only [if_true, List.mem_cons, List.not_mem_nil, or_false] at hkv
+                rcases hkv with hkv | hkv
+                · subst hkv
+                  simp [optDefName_eq]
+                · subst hkv
+                  cases o.exp <;> simp [typeText]
+            · exact ⟨varText (e.links.varDef p.start), by simp, by rw [← hcs]; exact hmem⟩
+        · cases hcs
+    | field f parent => simp [Demand.render] at hcs
+    | spread f => simp [Demand.render] at hcs
+    | inline f parent => simp [Demand.render] at hcs
+    | directive dir loc => simp [Demand.render] at hcs
+    | varDef v => simp [Demand.render] at hcs
+    | fragDef f => simp [Demand.render] at hcs
+
+/-- (a)/(e), "contents of custom-scalar literals excepted": in a document that passes validation
+    and satisfies ValuesOfCorrectType (hypothesis named after the rule, which has no equivalence
+    theorem yet) the ONLY value nodes of which the specification demands no expected type and
+    definition are those nested in a list / object literal written where a type that takes any
+    literal is expected (`Spec.structuredAtNamed`: a custom scalar) — every other value node of
+    every argument and default value is typed, with present links (`C09_links_correct`). -/
+theorem C09_untyped_values_only_in_custom_scalars (s : Schema) (d : QueryDoc)
+    (hvalid : validate defaultRules s d = .ok []) (hs : Gql.Spec.Closed s)
+    (hString : (s.type? (str "String")).isSome) (hwp : Spec.wellParented s d = true)
+    (hk : ∀ op ∈ d.ops, op.op ∈ parserOpKinds) (hKnownRootType : Spec.knownRootType s d = true)
+    (hKnownTypeNames : Spec.variableTypesExist s d = true ∧ Spec.fragmentSpreadTypeExistence s d = true)
+    (hValuesOfCorrectType : Spec.valuesOfCorrectType s d = true) :
+    ∀ o, SpecValOcc s d o → o.typed = false →
+      ∃ r, SpecValOcc s d r ∧ r.typed = true ∧ (∃ dd, r.dfn = some dd ∧ Spec.structuredAtNamed dd = true) ∧
+        o ∈ valOccs s r.typed r.exp r.dfn r.v := by
+  have hr := C09_link_rules_of_valid s d hvalid hwp hk hKnownRootType hKnownTypeNames
+  have hpar := parents_present s d hs.fieldTypes hString hr.knownRootType hr.fieldSelections hr.typeConditions
+  have hsites := argSites_present s d hs hpar hr.fieldSelections hr.directives hr.argumentNames
+  intro o ho hot
+  obtain ⟨r, hr', ⟨hrt, hcust⟩, hin⟩ := untyped_only_in_custom s d hsites hValuesOfCorrectType o ho hot
+  have hpres := (specValOcc_present s d hs.fieldTypes hsites hr.variableTypes r hr' hrt).2
+  cases hdd : r.dfn with
+  | none => rw [hdd] at hpres; cases hpres
+  | some dd => exact ⟨r, hr', hrt, ⟨dd, hdd, hcust dd hdd⟩, hin⟩
+
+/-! ## Non-vacuity: the hypotheses are satisfiable (kernel-checked documents) -/
+
+section NonVacuity
+open Gql.Validate.LinkWitness Gql.Validate.Witness
+
+/-- `docV` — `query ($v: Int = 3, $b: Boolean!) { f(l: {xs: [1, $v]}, a: {k: [1]}, n: 5) @include(if: $b) }`
+    against `scalar Any  input In { xs: [Int] any: Any sub: In }  type Query { f(l: [In], i: In, a: Any, n: [Int]): Int }` —
+    satisfies every hypothesis of `C09_links_correct` (and of the theorems (a)–(d)) -/
+example :
+    validate defaultRules schemaV docV = .ok [] ∧ Gql.Spec.Closed schemaV ∧
+    (schemaV.type? (str "String")).isSome ∧ Spec.wellParented schemaV docV = true ∧
+    (∀ op ∈ docV.ops, op.op ∈ parserOpKinds) ∧ FragPosDistinct docV ∧ Spec.knownRootType schemaV docV = true ∧
+    (Spec.variableTypesExist schemaV docV = true ∧ Spec.fragmentSpreadTypeExistence schemaV docV = true) ∧
+    (∀ op ∈ docV.ops, ∀ op' ∈ docV.ops, ∀ raw, Spec.varDefByName op raw = Spec.varDefByName op' raw) ∧
+    ((walkDoc schemaV.view docV).map varStartsDistinctB = some true) ∧
+    Spec.valuesOfCorrectType schemaV docV = true := by
+  refine ⟨by decide +kernel, ?_, by decide +kernel, by decide +kernel, by decide +kernel, ?_, by decide +kernel,
+    ⟨by decide +kernel, by decide +kernel⟩, ?_, by decide +kernel, by decide +kernel⟩
+  · refine ⟨by decide +kernel, by decide +kernel, by decide +kernel, by decide +kernel, by decide +kernel,
+      by decide +kernel, by decide +kernel, ⟨fun n h => ?_, fun n h => ?_, fun n h => ?_⟩, by decide +kernel,
+      by decide +kernel⟩
+    · cases h; decide +kernel
+    · cases h
+    · cases h
+  · intro f hf
+    cases hf
+  · intro op hop op' hop' raw
+    simp only [docV, List.mem_singleton] at hop hop'
+    rw [hop, hop']
+
+/-- what the specification lists for the argument `l: {xs: [1, $v]}` where `[In]` is expected (a
+    single value in a list position): the object keeps the LIST type `[In]` with the definition of
+    `In`; its field `xs` gets `[Int]` / `Int`; the items `1` and `$v` get the element type `Int` and
+    the same definition.  By `C09_value_links_correct` the walker's events carry exactly these. -/
+example :
+    (valOccs schemaV true (some (tList (tNamed "In"))) (schemaV.type? (str "In")) valL).map
+      (fun o => (o.v.pos.start, o.typed, o.exp.map (·.render), o.dfn.map (·.name))) =
+    [(30, true, some (str "[In]"), some (str "In")), (35, true, some (str "[Int]"), some (str "Int")),
+     (36, true, some (str "Int"), some (str "Int")), (39, true, some (str "Int"), some (str "Int"))] := by
+  decide +kernel
+
+/-- … and for `a: {k: [1]}` where the custom scalar `Any` is expected: the literal itself is typed,
+    its contents are not demanded -/
+example :
+    (valOccs schemaV true (some (tNamed "Any")) (schemaV.type? (str "Any")) valA).map
+      (fun o => (o.v.pos.start, o.typed, o.exp.map (·.render), o.dfn.map (·.name))) =
+    [(47, true, some (str "Any"), some (str "Any")), (51, false, none, none), (52, false, none, none)] := by
+  decide +kernel
+
+/-- the walker on `docV`: every value event with its expected type and definition (custom-scalar
+    contents at 51, 52 carry nothing; the single value `5` where `[Int]` is expected keeps `[Int]`) -/
+example :
+    (walkDoc schemaV.view docV).map (fun evs => evs.filterMap fun e =>
+      match e.p with
+      | .value v exp dfn => some (v.pos.start, exp.map (·.render), dfn.map (·.name))
+      | _ => none) =
+    some [(17, some (str "Int"), some (str "Int")), (36, some (str "Int"), some (str "Int")),
+          (39, some (str "Int"), some (str "Int")), (35, some (str "[Int]"), some (str "Int")),
+          (30, some (str "[In]"), some (str "In")), (52, none, none), (51, none, none),
+          (47, some (str "Any"), some (str "Any")), (61, some (str "[Int]"), some (str "Int")),
+          (77, some (str "Boolean!"), some (str "Boolean"))] := by
+  decide +kernel
+
+/-- `docS` — `query A($v: Int) { ...F } query B($v: Int = 2) { ...F } fragment F on Query { args(l: [$v], c: {v: $v}) }` —
+    satisfies the hypotheses of `C09_links_correct` with TWO operations sharing a fragment.  (The
+    model of NoFragmentCycles is defined by well-founded recursion, which the kernel does not
+    evaluate in reasonable time on a document with a fragment; its verdict is given through the
+    specification predicate.  `vcheck -prop C09` validates this very document with the real library.) -/
+example :
+    validate (defaultRules.filter fun r => r.name != str "NoFragmentCycles") schemaS docS = .ok [] ∧
+    Spec.noFragmentCycles docS = true ∧ Gql.Spec.Closed schemaS ∧
+    Spec.wellParented schemaS docS = true ∧ FragPosDistinct docS ∧ Spec.knownRootType schemaS docS = true ∧
+    (Spec.variableTypesExist schemaS docS = true ∧ Spec.fragmentSpreadTypeExistence schemaS docS = true) := by
+  refine ⟨by decide +kernel, by decide +kernel, ?_, by decide +kernel, ?_, by decide +kernel,
+    ⟨by decide +kernel, by decide +kernel⟩⟩
+  · refine ⟨by decide +kernel, by decide +kernel, by decide +kernel, by decide +kernel, by decide +kernel,
+      by decide +kernel, by decide +kernel, ⟨fun n h => ?_, fun n h => ?_, fun n h => ?_⟩, by decide +kernel,
+      by decide +kernel⟩
+    · cases h; decide +kernel
+    · cases h
+    · cases h
+  · intro f hf g hg _
+    simp only [docS, List.mem_singleton] at hf hg
+    rw [hf, hg]
+
+/-- which operation wins (the recorded C15 finding), kernel-checked on `docS`: the two uses of `$v`
+    inside the shared fragment `F` (offsets 90 and 102) are walked three times — on behalf of `A`
+    (they show `A`'s definition, offset 8), on behalf of `B` (they show `B`'s, offset 36) and
+    stand-alone (`CurrentOperation = nil`: they keep `B`'s).  After the run the document is linked to
+    the definition of the operation walked LAST; both are among the specification's candidates. -/
+example :
+    (walkDoc schemaS.view docS).map (fun evs => evs.filterMap fun e =>
+      match e.p with
+      | .value (.mk .variable _ _ p) _ _ =>
+        some (p.start, e.cur.map (·.name), (e.links.varDef p.start).map (·.pos.start))
+      | _ => none) =
+    some [(90, some (str "A"), some 8), (102, some (str "A"), some 8),
+          (90, some (str "B"), some 36), (102, some (str "B"), some 36),
+          (90, none, some 36), (102, none, some 36)] := by
+  decide +kernel
+
+end NonVacuity
+
+#print axioms C09_value_links_correct
+#print axioms C09_variable_use_links_correct
+#print axioms C09_variable_use_links_agreeing
+#print axioms C09_variable_definition_links_correct
+#print axioms C09_inline_fragment_link_is_parent
+#print axioms C09_inline_fragment_link_counterexample
+#print axioms C09_links_correct
+#print axioms C09_expected_links_met
+#print axioms C09_untyped_values_only_in_custom_scalars
+#print axioms C09_default_rule_reports_nothing
+#print axioms C09_link_rules_of_valid
